@@ -99,7 +99,8 @@ def shapes():
                 dict(tag=0, w=1.0), dict(tag=0, w=True)],
         Fact: [dict(), dict(u=h.Pmos()), dict(u=h.Nmos(w=2)), dict(t=(1, 3)), dict(k=1), dict(t=(1, 2), u=h.Nmos())],
         Rich: [dict(), dict(c=Color.BLUE), dict(i=Inner(k=2)), dict(i=Inner(t="ss")), dict(p=1000 * h.prefix.m),
-               dict(p=1 * h.prefix.UNIT), dict(p="w/5"), dict(p=2), dict(m=leafA), dict(m=leafB), dict(m=h.R(r=1)),
+               dict(p=1 * h.prefix.UNIT), dict(p="w/5"), dict(p=2), dict(p="3/2"), dict(p=1.5), dict(p="1/1"),
+               dict(p="2/1"), dict(p=h.Literal("2")), dict(m=leafA), dict(m=leafB), dict(m=h.R(r=1)),
                dict(m=h.R(r=2))],
     }
     return vals
@@ -466,6 +467,66 @@ def check_long_session(n_other):
     return None
 
 
+def check_memo_after_failure(kind):
+    """memoisation is for good: the module a call returned is returned again after its elaboration (alone / inside a
+    parent / inside a generated parent) has failed; the body does not run again"""
+    import hdl21 as h
+    runs = {"n": 0}
+
+    @h.paramclass
+    class FP:
+        w = h.Param(dtype=int, desc="w", default=1)
+
+    Buf = h.Module(name="FBuf")
+    Buf.i, Buf.o = h.Input(), h.Output()
+
+    @h.generator
+    def Chain(p: FP) -> h.Module:
+        runs["n"] += 1
+        m = h.Module()
+        m.i, m.o = h.Input(), h.Output()
+        m.mid = h.Signal(width=p.w)            # any width but 1 does not fit Buf's ports
+        m.b0 = Buf(i=m.i, o=m.mid)
+        m.b1 = Buf(i=m.mid, o=m.o)
+        return m
+
+    @h.generator
+    def Over(p: FP) -> h.Module:
+        m = h.Module()
+        m.i, m.o = h.Input(), h.Output()
+        m.c = Chain(p)(i=m.i, o=m.o)
+        return m
+    w = {"case": "memo-after-failure", "kind": kind}
+    first = Chain(w=2)
+    target = {"alone": lambda: first, "in-parent": lambda: _parent(h, first), "in-generated-parent": lambda: Over(w=2)}[kind]()
+    for entry in (h.elaborate, h.to_proto):
+        try:
+            entry(target)
+        except Exception:
+            pass
+        else:
+            return ("memo.harness", "the ill-fitting chain was accepted", w)
+        again = Chain(w=2)
+        if again is not first or Chain(FP(w=2)) is not first or runs["n"] != 1:
+            return ("memo.forgotten-after-failure", f"Chain(w=2) after its elaboration failed ({kind}, {entry.__name__}): a new "
+                                                    f"module is made (body ran {runs['n']} times)", w)
+        if kind == "in-generated-parent" and Over(w=2) is not target:
+            return ("memo.forgotten-after-failure", "the generated parent is made anew after its elaboration failed", w)
+    ok = Chain(w=1)
+    try:
+        h.to_proto(ok)
+    except Exception as e:
+        return ("memo.sound-sibling", f"Chain(w=1) does not export after Chain(w=2) failed: {str(e)[:120]}", w)
+    return None
+
+
+def _parent(h, child):
+    p = h.Module(name="FParent")
+    p.i, p.o = h.Input(), h.Output()
+    p.c = child(i=p.i, o=p.o)
+    return p
+
+
 def check_paramclass_fields(_):
     """structural: every field of every paramclass takes part in == and hash (else unequal parameters share a cache
     entry): the library's own paramclasses and freshly declared ones with default / default_factory / required fields"""
@@ -536,6 +597,10 @@ def run(ctx):
                     rule="external modules of one name in two domains (and calls of them), generators and modules of one "
                          "name written in two Python modules, as parameter values of one generator: distinct modules, "
                          "distinct names, and the design holding both exports", bound="4 pairs", key_of=repr)
+    ctx.run_bounded("memo-after-failure", ["alone", "in-parent", "in-generated-parent"], check_memo_after_failure,
+                    rule="a generated module whose elaboration fails (alone, inside a parent, inside a generated parent; "
+                         "elaborate and to_proto): the same call returns the same module afterwards, the body runs once",
+                    bound="3 placements x 2 entry points", key_of=repr)
     ctx.run_bounded("string-pair-names", ALPHABETS if ctx.tier == "thorough" else ALPHABETS[:3], check_string_pairs,
                     rule="every pair of strings built from up to three pieces of a small alphabet (a letter, the ` b=` "
                          "separator shape, `=`, blank, tab, line breaks, `None`): different pairs get different names",
@@ -555,6 +620,8 @@ def replay(payload):
     inp = payload.get("input") or (payload.get("replay") or {}).get("input") or {}
     if inp.get("case") in ("handed-on", "self-handed-on", "chain", "used-before-returned"):
         r = check_handed_on(inp["case"])
+    elif inp.get("case") == "memo-after-failure":
+        r = check_memo_after_failure(inp["kind"])
     elif inp.get("case") == "hdl-valued":
         r = check_hdl_valued(0)
     elif inp.get("case") == "string-pairs":
